@@ -748,9 +748,12 @@ class Provides(Declaration):  # Really named ProvidesClass
     def __init__(self, cls, *interfaces):
         self.__args = (cls, ) + interfaces
         self._cls = cls
-        Declaration.__init__(
-            self, *self._add_interfaces_to_cls(interfaces, cls)
-        )
+        bases = self._add_interfaces_to_cls(interfaces, cls)
+        # If redundant interfaces were stripped, this declaration depends
+        # on what *cls* implemented right now and must not be shared with
+        # later declarations (see ``Provides``).
+        self._v_stripped = len(bases) != len(interfaces) + 1
+        Declaration.__init__(self, *bases)
 
     # Added to by ``moduleProvides``, et al
     _v_module_names = ()
@@ -826,7 +829,8 @@ def Provides(*interfaces):  # pylint:disable=function-redefined
     spec = InstanceDeclarations.get(interfaces)
     if spec is None:
         spec = ProvidesClass(*interfaces)
-        InstanceDeclarations[interfaces] = spec
+        if not spec._v_stripped:
+            InstanceDeclarations[interfaces] = spec
 
     return spec
 
